@@ -114,6 +114,8 @@ def rule_unchecked_sites(ctx, rule="C20-unchecked"):
             nme = callee_name(t)
             leaf = nme.rsplit("::", 1)[-1]
             if "unchecked" in leaf and not leaf.startswith("unchecked_") and not t.get("local_key"):
+                if bb not in b.reachable(0):
+                    continue      # an arm that does not exist in this instantiation / configuration
                 found.add((path, nme))
                 key = (path, nme)
                 audited = _audited(path, nme) is not None
@@ -125,6 +127,27 @@ def rule_unchecked_sites(ctx, rule="C20-unchecked"):
                     audited = bool(acs) and all(_audited(a, nme) is not None for a in acs)
                     lifted = audited
                 justified = None
+                if not audited and nme in ("core::result::Result::<T, E>::unwrap_unchecked", "core::option::Option::<T>::unwrap_unchecked") and t["args"]:
+                    # `u8::try_from(n).unwrap_unchecked()` behind a real test that n fits (or a remainder by
+                    # a literal that does): the conversion cannot fail - it is `n as u8` with the proof attached
+                    a0 = strip_refs(b.origin_operand(t["args"][0]))
+                    if a0[0] == "call":
+                        tt = b.term(a0[1])
+                        mm = re.match(r"^core::convert::num::.*<impl core::convert::TryFrom<(\w+)> for (\w+)>::try_from$", callee_name(tt))
+                        if mm and tt["args"]:
+                            bits = {"u8": 8, "u16": 16, "u32": 32, "u64": 64, "usize": F.ptr_bits}
+                            to = bits.get(mm.group(2))
+                            x = strip_refs(b.origin_operand(tt["args"][0]))
+                            dx = describe(b, x)
+                            if to:
+                                if bits.get(mm.group(1), 999) <= to:
+                                    justified = "widening conversion"
+                                for g in guards_at(b, bb):
+                                    if g[0] == "cmp" and g[3] is not None and g[3] < 2 ** to and describe(b, g[1]) == dx:
+                                        justified = "behind %s <= %d" % (dx, g[3])
+                                if x[0] == "bin" and x[1] == "Rem" and strip_refs(x[3])[0] == "const" and isinstance(strip_refs(x[3])[2], int) and strip_refs(x[3])[2] <= 2 ** to:
+                                    justified = "a remainder by %d" % strip_refs(x[3])[2]
+                    audited = justified is not None
                 if not audited and nme in ("core::str::<impl str>::get_unchecked", "core::str::<impl str>::get_unchecked_mut") and len(t["args"]) == 2:
                     # a hint that carries its own proof: text.get_unchecked(x..) / (..x) behind a real
                     # (non-debug) `text.is_char_boundary(x)` test - which also bounds x by the length
